@@ -11,7 +11,10 @@ def hexOf (t : Text) : String := encodeStr t
 def cellStr (c : CellV) : String :=
   -- a formula cell whose cached string result is empty is the same as one without a cached result
   let kind := if c.formula.isSome ∧ c.kind = "s" ∧ c.value.isEmpty then "" else c.kind
-  s!"{str c.ref}/{kind}/{hexOf c.value}/{match c.formula with | some f => hexOf f | none => "~"}"
+  -- a shared-formula child is written as a reference to its master: reported as such (marker), the
+  -- expansion rule is checked by C03
+  let f := if c.sharedChild then some (Char.ofNat 1 :: "shared".toList) else c.formula
+  s!"{str c.ref}/{kind}/{hexOf c.value}/{match f with | some f => hexOf f | none => "~"}"
 
 def insertSorted (x : String) : List String → List String
   | [] => [x]
